@@ -102,7 +102,7 @@ Proof.
       split.
       { unfold n1, n1_view, s2. cbn. split; intros Hpc; rewrite Hcells; [apply N1v|apply N1n]; exact Hpc. }
       split; [exact Hkok'|exact S2].
-    + apply (pref_one ih ivs s s2 (WPH (fake_ph hd r))); [reflexivity|reflexivity|exact Xs|exact S2|].
+    + apply (pref_one ih ivs s s2 (WPH (fake_ph hd r))); [reflexivity|reflexivity|exact Xs|exact S2| |reflexivity].
       rewrite Est. unfold sadv. cbn [sr_hdrs sr_nhr]. split; [auto|]. split; [lia|]. split; [lia|].
       intros _. split; [reflexivity|]. split; [reflexivity|apply rs_refl].
   - (* stored as a replayed header *)
@@ -115,7 +115,7 @@ Proof.
     + split; [split; [exact Hc1|split; [exact Ha1|split; [exact Hs|exact Hhi]]]|]. split; [exact Hpok1|].
       split; [exact Xc|]. split; [split; [exact Nc|split; [exact Nv|exact Nn]]|].
       split; [split; [exact N1v|exact N1n]|]. split; [exact Hkok'|exact S2].
-    + apply (pref_one ih ivs s s2 (WReplay hd)); [reflexivity|reflexivity|exact Xs|exact S2|].
+    + apply (pref_one ih ivs s s2 (WReplay hd)); [reflexivity|reflexivity|exact Xs|exact S2| |reflexivity].
       rewrite Est. unfold sadv. cbn [sr_hdrs sr_nhr]. split; [auto|]. split; [lia|]. split; [lia|].
       intros _. split; [reflexivity|]. split; [reflexivity|apply rs_refl].
 Qed.
@@ -224,7 +224,7 @@ Proof.
       - apply Hcell. apply N1n. exact Hpc. }
     split; [exact Xk|exact S2]. }
   assert (P2 : pref ih ivs s1 s2).
-  { apply (pref_one ih ivs s1 s2 (WPC h r coll)); [reflexivity|reflexivity|exact Xs|exact S2|].
+  { apply (pref_one ih ivs s1 s2 (WPC h r coll)); [reflexivity|reflexivity|exact Xs|exact S2| |reflexivity].
     eapply adv_sadv; [exact Hc|exact (proj1 I2)|apply adv_frame; exact F]. }
   unfold bind. destruct (check_voting_precommit_shift s2) as [s3|] eqn:Hcv; [|discriminate].
   intros E; inversion E; subst. destruct (K_check_voting _ _ _ _ K2 Hcv) as [K3 P3].
